@@ -1429,16 +1429,22 @@ impl Stack {
 
     /// Push a message.
     fn push(&self, msg: Message) {
+        #[cfg(feature = "verif-hooks")]
+        crate::verif::yield_at(crate::verif::YieldPoint::Push, self.index);
         self.deque.push(msg);
     }
 
     /// Pop a message.
     fn pop(&self) -> Option<Message> {
+        #[cfg(feature = "verif-hooks")]
+        crate::verif::yield_at(crate::verif::YieldPoint::Pop, self.index);
         self.deque.pop().or_else(|| self.steal())
     }
 
     /// Steal a message from another queue.
     fn steal(&self) -> Option<Message> {
+        #[cfg(feature = "verif-hooks")]
+        crate::verif::yield_at(crate::verif::YieldPoint::Steal, self.index);
         // For fairness, try to steal from index + 1, index + 2, ... len - 1,
         // then wrap around to 0, 1, ... index - 1.
         let (left, right) = self.stealers.split_at(self.index);
@@ -1496,11 +1502,15 @@ impl<'s> Worker<'s> {
     /// The worker will call the caller's callback for all entries that aren't
     /// skipped by the ignore matcher.
     fn run(mut self) {
+        #[cfg(feature = "verif-hooks")]
+        crate::verif::yield_at(crate::verif::YieldPoint::Start, self.stack.index);
         while let Some(work) = self.get_work() {
             if let WalkState::Quit = self.run_one(work) {
                 self.quit_now();
             }
         }
+        #[cfg(feature = "verif-hooks")]
+        crate::verif::yield_at(crate::verif::YieldPoint::Exit, self.stack.index);
     }
 
     fn run_one(&mut self, mut work: Work) -> WalkState {
@@ -1702,6 +1712,11 @@ impl<'s> Worker<'s> {
                         // CPU waiting, we let the thread sleep for a bit. In
                         // general, this tends to only occur once the search is
                         // approaching termination.
+                        #[cfg(feature = "verif-hooks")]
+                        crate::verif::yield_at(
+                            crate::verif::YieldPoint::Idle,
+                            self.stack.index,
+                        );
                         let dur = std::time::Duration::from_millis(1);
                         std::thread::sleep(dur);
                     }
@@ -1712,11 +1727,15 @@ impl<'s> Worker<'s> {
 
     /// Indicates that all workers should quit immediately.
     fn quit_now(&self) {
+        #[cfg(feature = "verif-hooks")]
+        crate::verif::yield_at(crate::verif::YieldPoint::QuitWrite, self.stack.index);
         self.quit_now.store(true, AtomicOrdering::SeqCst);
     }
 
     /// Returns true if this worker should quit immediately.
     fn is_quit_now(&self) -> bool {
+        #[cfg(feature = "verif-hooks")]
+        crate::verif::yield_at(crate::verif::YieldPoint::QuitRead, self.stack.index);
         self.quit_now.load(AtomicOrdering::SeqCst)
     }
 
@@ -1737,11 +1756,15 @@ impl<'s> Worker<'s> {
 
     /// Deactivates a worker and returns the number of currently active workers.
     fn deactivate_worker(&self) -> usize {
+        #[cfg(feature = "verif-hooks")]
+        crate::verif::yield_at(crate::verif::YieldPoint::Deactivate, self.stack.index);
         self.active_workers.fetch_sub(1, AtomicOrdering::Acquire) - 1
     }
 
     /// Reactivates a worker.
     fn activate_worker(&self) {
+        #[cfg(feature = "verif-hooks")]
+        crate::verif::yield_at(crate::verif::YieldPoint::Activate, self.stack.index);
         self.active_workers.fetch_add(1, AtomicOrdering::Release);
     }
 }
